@@ -54,7 +54,7 @@ def units_for(prop, tier):
     return out
 
 
-def run_units(units, timeout_ms, total_workers=16):
+def run_units(units, timeout_ms, total_workers=16, only_prop=None):
     """Fork one child per unit (bounded), each child forking its own provers."""
     results = [None] * len(units)
     if not units:
@@ -77,7 +77,7 @@ def run_units(units, timeout_ms, total_workers=16):
                 if pid == 0:
                     try:
                         c, ov = units[i]
-                        ur = U.verify_unit(c, ov, timeout_ms=timeout_ms, workers=per)
+                        ur = U.verify_unit(c, ov, timeout_ms=timeout_ms, workers=per, only_prop=only_prop)
                         data = pickle.dumps(ur.as_dict())
                     except BaseException as e:      # pragma: no cover
                         data = pickle.dumps({"__error__": "%r\n%s" % (e, traceback.format_exc())})
@@ -154,7 +154,7 @@ def main(argv=None):
     for c in {c for c, _ in units}:
         pass
     timeout_ms = 60000 if tier == "quick" else 300000
-    raw = run_units(units, timeout_ms)
+    raw = run_units(units, timeout_ms, only_prop=prop)
     known = load_known()
     failed, undecided, internal = [], [], []
     n_ob = n_dis = 0
